@@ -132,7 +132,7 @@ PROPS["C12"] = dict(
                 "first, and keep every other connection with a requestant bound to its receive buffer. Native runs in virtual tyme (harness) are the bounded tier.")
 
 PROPS["C04"] = dict(
-    contracts=["contracts.sched_bounded", "contracts.sched_inv"], harness="harness.sched_props:C04", level="other",
+    contracts=["contracts.sched_bounded", "contracts.sched_inv", "contracts.c01_lifecycle"], harness="harness.sched_props:C04", level="other",
     trusted_base=["dog protocol model in contracts/sched.py"], assumptions=SCHED_ASSUME + ["the flattening lemma (a tock-0 DoDoer's cycle is the concatenation of its children's steps) is a paper argument over the per-call clauses, not mechanised"],
     explanation="Relational property. Code-to-spec half: DoDoer.enter/recur/exit are interpreted from /repo/src against the SAME clause text as Doist.enter/recur/exit "
                 "(one harness parametrised by class: injected tymth/tock, first due tyme, send order and value, retyme rule with the owner's own tock, done flags, "
@@ -312,7 +312,7 @@ PROPS["C22"] = dict(
                 "memo differing from the sent one is delivered.")
 
 PROPS["C23"] = dict(
-    contracts=["contracts.c23_durq", "contracts.c23_dusq", "contracts.c24_subers"], harness="harness.durable_native:C23", level="other",
+    contracts=["contracts.c23_durq", "contracts.c23_dusq", "contracts.c24_subers", "contracts.c24_scans"], harness="harness.durable_native:C23", level="other",
     technique="contract-based deductive verification (pyvc) of Durq.push/pull/clear/extend/sync against a FIFO model of the store entry; bounded model-based runtime check "
               "against FIFO / ordered-set models with a real LMDB store for Dusq, the store itself and reopen",
     trusted_base=["EXT: the sub-database entry at the queue's key is a FIFO list (add/put append, pop takes the first, rem empties, cnt, getIter in order, pin replaces): "
